@@ -41,6 +41,7 @@ type state struct {
 	refB    [1024]bool
 	hits    []corr.Hit
 	hitSeen map[string]bool
+	held    []c08x.Held // results returned by earlier GetN calls, re-checked after later calls
 }
 
 func newState() *state {
@@ -57,6 +58,29 @@ func (st *state) hit(site, what, detail string) {
 	st.hits = append(st.hits, corr.Hit{Key: key, What: detail})
 }
 
+// recheckHeld: every slice a GetN call returned earlier must still read what it read then.
+func (st *state) recheckHeld() {
+	for _, h := range st.held {
+		if ok, what := h.Recheck(); !ok {
+			st.hit(h.Site, "result-overwritten", "a later call rewrote an earlier result: "+what)
+		}
+	}
+}
+
+func (st *state) hold(h c08x.Held) {
+	st.held = append(st.held, h)
+	if len(st.held) > 24 {
+		st.held = st.held[len(st.held)-24:]
+	}
+}
+
+// checkMaskTable: the process-wide mask table must be intact (key `C08:u64Tab:corrupted`).
+func (st *state) checkMaskTable() {
+	if ok, what := c08x.MaskTableIntact(); !ok {
+		st.hit("u64Tab", "corrupted", what)
+	}
+}
+
 func (st *state) reg(r string) (bitmap1024.Bit1024, *[1024]bool, bool) {
 	switch r {
 	case "a":
@@ -65,6 +89,15 @@ func (st *state) reg(r string) (bitmap1024.Bit1024, *[1024]bool, bool) {
 		return st.b, &st.refB, true
 	}
 	return nil, nil, false
+}
+
+func setChanged(b bitmap1024.Bit1024, ref *[1024]bool) bool {
+	for i := 0; i < 1024; i++ {
+		if ((uint64(b[i/64])>>uint(i%64))&1 == 1) != ref[i] {
+			return true
+		}
+	}
+	return false
 }
 
 func refMembers(ref []bool) []int {
@@ -152,6 +185,10 @@ func iterLine[T c08x.Elem](st *state, site string, members []int, rev bool, slen
 
 func getnLine[T c08x.Elem](st *state, site string, members []int, rev bool, n int, f func(n int) []T) string {
 	s, ok := c08x.GetNCall(n, f)
+	st.recheckHeld() // earlier results must survive this call
+	if ok && len(s) > 0 {
+		st.hold(c08x.Hold(site, s))
+	}
 	if n >= 0 {
 		want := c08x.ExpectGetN[T](members, rev, 0, n)
 		switch {
@@ -174,6 +211,13 @@ func (st *state) run(line string) string {
 	switch {
 	case f[0] == "new" && len(f) == 1:
 		*st = *newState()
+		return "ok"
+	case f[0] == "probe-api" && len(f) == 1:
+		// monitor-only: every exported method of the package's types, called once on throw-away values, must leave the
+		// process-wide mask table intact (methods the scripts do not know about included)
+		for _, bad := range c08x.ProbeAPI() {
+			st.hit("api-probe", "corrupts-mask-table", "after calling "+bad)
+		}
 		return "ok"
 	case f[0] == "magic" && len(f) == 2:
 		m, ok := c08x.ParseInt(f[1], -2147483648, 2147483647)
@@ -361,6 +405,35 @@ func (st *state) run(line string) string {
 			st.checkReg("Bit1024.UnsetI16", b, ref)
 		}
 		return "ok"
+	case f[0] == "marshal-mutate" && len(f) == 2:
+		// Marshal's result must be detached from the bitmap: overwrite every byte of the returned buffer and look at the
+		// bitmap again — membership changes only through Set/Unset (and Unmarshal), never through a buffer handed out
+		b, ref, ok := st.reg(f[1])
+		if !ok {
+			return "bad-op"
+		}
+		var buf []byte
+		func() {
+			defer func() { _ = recover() }()
+			buf = b.Marshal()
+		}()
+		for i := range buf {
+			buf[i] ^= 0xa5
+		}
+		saved := *ref
+		st.checkReg("Bit1024.Marshal:aliases-receiver", b, ref)
+		if setChanged(b, &saved) {
+			// put the bitmap (and the reference, which checkReg resynchronised) back: one root cause, one report
+			*ref = saved
+			for i := 0; i < 1024; i++ {
+				if ref[i] {
+					b[i/64] |= 1 << uint(i%64)
+				} else {
+					b[i/64] &^= 1 << uint(i%64)
+				}
+			}
+		}
+		return c08x.ShowMap(b)
 	case f[0] == "dump" && len(f) == 2:
 		b, _, ok := st.reg(f[1])
 		if !ok {
@@ -497,6 +570,7 @@ func (st *state) run(line string) string {
 func runCase(c corr.Case) (res corr.Result) {
 	st := newState()
 	defer c08x.SetMagic(int64(c08x.DefaultMagic))
+	walk := strings.Contains(c.Tag, "walk")
 	for _, l := range c.Lines {
 		out := func() (o string) {
 			defer func() {
@@ -507,7 +581,13 @@ func runCase(c corr.Case) (res corr.Result) {
 			return st.run(l)
 		}()
 		res.Outs = append(res.Outs, out)
+		if walk {
+			st.checkMaskTable() // after every operation of a walk
+		}
 	}
+	// end of every script: earlier results still intact, process-wide mask table still intact
+	st.recheckHeld()
+	st.checkMaskTable()
 	res.Hits = st.hits
 	return res
 }
@@ -871,6 +951,9 @@ func genCase1024(r *rng.R, tier string) corr.Case {
 		}
 	}
 	lines = append(lines, "dump a", "len a")
+	if r.Chance(1, 4) {
+		lines = append(lines, "marshal-mutate a", "len a")
+	}
 	if r.Chance(1, 2) {
 		lines = append(lines, r.Pick("and", "or", "orrev", "eq", "rev a", "rev b", "dump b", "len b"))
 		lines = append(lines, r.Pick("and", "or", "orrev", "eq", "rev a"))
@@ -1093,7 +1176,7 @@ func genMalformed(r *rng.R) corr.Case {
 		"len64 1", "alg64", "alg64 zz", "iter64 i7 f 3 0 0 1", "iter64 i8 x 3 0 0 1", "iter64 i8 f -3 0 0 1", "iter64 i8 f 3 0 0", "iter64 i8 f 3 0 a 1",
 		"getn64 u32 f 3", "getn64 i8 f", "getn64 i9 f 1", "load c 0,0,0,0,0,0,0,0,0,0,0,0,0,0,0,0", "load a 0,0,0", "load a 0,0,0,0,0,0,0,0,0,0,0,0,0,0,0,g",
 		"seti32 a 2147483648", "seti16 a 32768", "seti16 a -32769", "seti32 c 1", "seti32 a", "dump", "dump c", "len", "len c", "and 1", "rev", "rev c", "eq 1",
-		"iter a i8 f 3 0 0 1", "iter c i16 f 3 0 0 1", "iter a i16 f 3 0 0", "getn a u32 f 3", "getn a i8 f 3", "getn a i16 q 3", "getn a i16 f x", "ITER64 i8 f 3 0 0 1"}
+		"iter a i8 f 3 0 0 1", "iter c i16 f 3 0 0 1", "iter a i16 f 3 0 0", "getn a u32 f 3", "getn a i8 f 3", "marshal-mutate", "marshal-mutate c", "getn a i16 q 3", "getn a i16 f x", "ITER64 i8 f 3 0 0 1"}
 	lines := []string{"new"}
 	for k := r.Range(3, 8); k > 0; k-- {
 		if r.Chance(1, 3) {
@@ -1219,6 +1302,31 @@ func fixedCases() []corr.Case {
 		lines = append(lines, "load a "+strings.TrimSuffix(strings.Repeat("ffffffffffffffff,", 16), ","), "getn a i32 f 5000", "getn a i16 r 100000", "getn a i64 f 4097")
 		cs = append(cs, corr.Case{Tag: "fixed:getn-large-n", Lines: lines})
 	}
+	// Marshal's result is detached from the bitmap (both encodings, at the 63/64/65 boundary and full); earlier GetN
+	// results survive later GetN calls of the same width on other words / maps
+	{
+		lines := []string{"new"}
+		for _, k := range []int{0, 1, 63, 64, 65, 1024} {
+			var m [16]uint64
+			for i := 0; i < k; i++ {
+				j := (i * 17) % 1024
+				if k == 1024 {
+					j = i
+				}
+				m[j/64] |= 1 << uint(j%64)
+			}
+			lines = append(lines, "load a "+showMapU(m), "marshal-mutate a", "dump a", "len a", "getn a i16 f 70")
+		}
+		for _, wt := range []string{"i8", "i16", "i32", "i64"} {
+			lines = append(lines, "w ff", fmt.Sprintf("getn64 %s f 8", wt), "w ff00000000000000", fmt.Sprintf("getn64 %s f 8", wt), fmt.Sprintf("getn64 %s r 3", wt),
+				"w 8000000000000001", fmt.Sprintf("getn64 %s r 64", wt))
+		}
+		for _, wt := range []string{"i16", "i32", "i64"} {
+			lines = append(lines, "load a 3,0,0,0,0,0,0,0,0,0,0,0,0,0,0,0", fmt.Sprintf("getn a %s f 5", wt), "load b 0,0,0,0,0,0,0,0,0,0,0,0,0,0,0,c000000000000000",
+				fmt.Sprintf("getn b %s f 5", wt), fmt.Sprintf("getn a %s r 5", wt))
+		}
+		cs = append(cs, corr.Case{Tag: "fixed:detached-results", Lines: lines})
+	}
 	// algebra on structured pairs: differences that cancel under a wrapping sum / xor fold, complements, empty / full
 	{
 		mk := func(ps ...int) string {
@@ -1257,6 +1365,9 @@ func fixedCases() []corr.Case {
 // tOnly: the echo of the threshold read back through the hook is an internal observable
 func tOnly(line string) bool { return strings.HasPrefix(line, "magic ") }
 
+// probeAt: index of the last generated case of each tier (see Count), which is the API probe
+var probeAt = map[string]int{"quick": 2599, "thorough": 29999, "search": 9999}
+
 func spec() corr.Spec {
 	return corr.Spec{
 		Property: "C08",
@@ -1271,6 +1382,10 @@ func spec() corr.Spec {
 			return 10000 // search: after a broken tie; small scripts, algebra / set classes favoured (see Gen)
 		},
 		Gen: func(r *rng.R, tier string, i int) corr.Case {
+			if i == probeAt[tier] {
+				// last case of the run: if a method damages shared state, nothing after it is affected
+				return corr.Case{Tag: "api-probe", Lines: []string{"new", "probe-api"}}
+			}
 			if r.Chance(1, 40) {
 				return genCaseWalk(r) // Len through (almost) every value, random order
 			}
